@@ -260,9 +260,11 @@ class Shaper(object):
             self._launch_instance_tracker(verbose=verbose)
         if self._profile is None:
             self._launch_class_profiler(verbose=verbose)
-        if self._shape_list is None:
-            self._launch_class_shexer(acceptance_threshold=acceptance_threshold,
-                                      verbose=verbose)
+        # The shapes depend on acceptance_threshold and serializers annotate the statement objects:
+        # build them again for every call instead of reusing the ones of an earlier call.
+        self._class_shexer = None
+        self._launch_class_shexer(acceptance_threshold=acceptance_threshold,
+                                  verbose=verbose)
         log_msg(verbose=verbose,
                 msg="Building_output...")
 
